@@ -214,9 +214,17 @@ impl<'a, I: Iterator<Item = Item>, F: StreamFilter + 'a> Iterator for Compaction
                         continue;
                     }
 
-                    // NOTE: Next item is expired,
-                    // so the tail of this user key is entirely expired, so drain it all
-                    fail_iter!(self.drain_key(&head.key.user_key));
+                    // NOTE: An expired weak tombstone beneath a value must survive: it may still
+                    // shadow a value in a lower level, which would come back as soon as the value above
+                    // is cancelled by its own weak tombstone - so it becomes the next head of this user key
+                    let keep_weak_tombstone = peeked.key.value_type == ValueType::WeakTombstone
+                        && head.key.value_type != ValueType::Tombstone;
+
+                    if !keep_weak_tombstone {
+                        // NOTE: Next item is expired,
+                        // so the tail of this user key is entirely expired, so drain it all
+                        fail_iter!(self.drain_key(&head.key.user_key));
+                    }
                 }
             } else if head.is_tombstone() && self.evict_tombstones {
                 continue;
